@@ -76,21 +76,24 @@ Theorem C12_realize_coherent :
     (forall v, alias s v = alias s s0 -> In v others) ->
     safe_block d others post = true ->
     let t := exec_list trips (ICast d src td ts :: post) s in
-    let t' := exec_list trips (IAlloc d :: fst (ins_list d s0 false false false post)) s in
+    let t' := exec_list trips (IAlloc d :: fst (ins_list d s0 false false post)) s in
     trace t = trace t' /\ forall b, b <> d -> memo t b = memo t' b.
 Proof. exact realize_coherent. Qed.
 Print Assumptions C12_realize_coherent.
 
 Example C12_realize_nonvacuous :
   safe_block 2%nat [0%nat] [IOp 0 [(2, KOut)]; IOp 1 [(2, KIn); (3, KOut)]; IOp 2 [(2, KOut)]]%nat = true /\
-  fst (ins_list 2%nat 0%nat false false false [IOp 0 [(2, KOut)]; IOp 1 [(2, KIn); (3, KOut)]; IOp 2 [(2, KOut)]]%nat) =
-    [IOp 0 [(2, KOut)]; ICopy 2 0; ICopy 0 2; IOp 1 [(2, KIn); (3, KOut)]; IOp 2 [(2, KOut)]; ICopy 2 0]%nat.
+  fst (ins_list 2%nat 0%nat false false [IOp 0 [(2, KOut)]; IOp 1 [(2, KIn); (3, KOut)]; IOp 2 [(2, KOut)]]%nat) =
+    [IOp 0 [(2, KOut)]; IOp 1 [(2, KIn); (3, KOut)]; IOp 2 [(2, KOut)]; ICopy 2 0]%nat /\
+  safe_block 2%nat [0%nat] [IOp 0 [(2, KIn); (3, KOut)]; IOp 1 [(3, KIn); (2, KOutAcc)]]%nat = true /\
+  fst (ins_list 2%nat 0%nat false false [IOp 0 [(2, KIn); (3, KOut)]; IOp 1 [(3, KIn); (2, KOutAcc)]]%nat) =
+    [ICopy 0 2; IOp 0 [(2, KIn); (3, KOut)]; IOp 1 [(3, KIn); (2, KOutAcc)]; ICopy 2 0]%nat.
 Proof. exact realize_coherent_nonvacuous. Qed.
 Print Assumptions C12_realize_nonvacuous.
 
 (* (ii) the former refutation witnesses of findings F22 (write, read, write through one shared cast) and
-   F23 (accumulating output): the model of the repaired pass emits the flush / the copy-in and both
-   programs now run coherently *)
+   F23 (accumulating output): the model of the repaired pass emits no copy-in after a first writer / the
+   copy-in for the accumulating output, and both programs now run coherently *)
 Theorem C12_F22_repaired :
   trace (run (realize_all w_order)) = trace (run w_order) /\
   (forall b, In b [0; 1]%nat -> memo (run (realize_all w_order)) b = memo (run w_order) b).
